@@ -858,6 +858,11 @@ class Model(Object):
                         gene._reaction.remove(reaction)
                         if context:
                             context(partial(gene._reaction.add, reaction))
+                            # the reaction may lose the gene later in the context,
+                            # e.g., when it is added again and that is undone
+                            context(
+                                lambda rxn=reaction, g=gene: rxn._genes.add(g)  # noqa
+                            )
 
                         if remove_orphans and len(gene._reaction) == 0:
                             self.genes.remove(gene)
